@@ -664,6 +664,10 @@ class AwIterable:
 class Aw:
     """A user awaitable wrapping a value: logs when it is awaited (C19)."""
 
+    # (slots with padding: an object of an unusual size, so that the place of a dropped one is not taken at once by the
+    #  interpreter's everyday small objects -- see LazyAw.make)
+    __slots__ = ("rec", "value", "label", "hashable", "__weakref__") + tuple(f"_pad{i}" for i in range(24))
+
     def __init__(self, rec: Recorder, value, label=None):
         self.rec, self.value, self.label = rec, value, label
         rec.naw = getattr(rec, "naw", 0) + 1
